@@ -36,14 +36,14 @@ fn c07_unspent_dump_matches_reference() {
     finish(suite, cases);
 }
 
-/// C07 (bounded: fan-out transactions with 252 / 253 / 254 / 300 outputs, a 253-byte script, 253 inputs): counts and
+/// C07 (bounded: fan-out transactions with 252 / 253 / 254 / 300 / 65536 / 65537 outputs, a 253-byte script, 253 inputs): counts and
 /// lengths on both sides of the CompactSize width boundary -- the rows carry the real txid (so later spends of it are
 /// honoured) and every output index
 #[test]
 fn c07_compactsize_boundary_fanouts() {
     let suite = "c07_compactsize_boundary_fanouts";
     let mut cases = 0;
-    for n in [252usize, 253, 254, 300] {
+    for n in [252usize, 253, 254, 300, 65_536, 65_537] {
         cases += 1;
         // (every 7th output pays a witness program of a future version: program lengths 2..=40, addresses up to 74 characters)
         let fan = TxSpec::new(vec![TxIn::new([0x33; 32], 5, vec![0x51])], (0..n).map(|i| TxOut::new(10 + i as u64,
@@ -66,10 +66,12 @@ fn c07_compactsize_boundary_fanouts() {
         let lines = csv_lines(&out.path().join("unspent-0-3.csv"));
         let mut got: Vec<String> = lines.iter().skip(1).cloned().collect(); got.sort();
         let mut want: Vec<String> = ref_utxo(&chain, 0, 3).iter().map(|((t, i), (h, v, a))| format!("{};{};{};{};{}", t, i, h, v, a)).collect(); want.sort();
-        let extra: Vec<&String> = got.iter().filter(|g| !want.contains(g)).collect();
-        let missing: Vec<&String> = want.iter().filter(|w| !got.contains(w)).collect();
+        let (gs, ws): (std::collections::HashSet<&String>, std::collections::HashSet<&String>) = (got.iter().collect(), want.iter().collect());
+        let extra: Vec<&String> = got.iter().filter(|g| !ws.contains(g)).collect();
+        let missing: Vec<&String> = want.iter().filter(|w| !gs.contains(w)).collect();
         check(extra.is_empty(), suite, "C07:nothing_else_is_listed", &inp, &format!("{} extra rows e.g. {:?}", extra.len(), extra.first()), "no extra rows");
         check(missing.is_empty(), suite, "C07:every_unspent_address_bearing_output_is_listed", &inp, &format!("{} missing rows e.g. {:?}", missing.len(), missing.first()), "no missing rows");
+        check(got.len() == gs.len(), suite, "C07:nothing_is_listed_twice", &inp, &format!("{} rows, {} distinct", got.len(), gs.len()), "all distinct");
     }
     finish(suite, cases);
 }
@@ -119,6 +121,30 @@ fn c07_large_values_and_respent_duplicates() {
               let mut got: Vec<String> = csv_lines(&out.path().join("unspent-0-2.csv")).into_iter().skip(1).collect(); got.sort();
               let mut want: Vec<String> = ref_utxo(&chain, 0, 2).iter().map(|((t, i), (h, v, a))| format!("{};{};{};{};{}", t, i, h, v, a)).collect(); want.sort();
               check(got == want, suite, "C07:nothing_else_is_listed", inp, &format!("{:?}", got), &format!("{:?}", want));
+          }
+      } }
+    // (3) "later" means later: an input that names an output created FURTHER DOWN in the same block does not spend it (the
+    // reference is to something that does not exist yet); the same outpoint referenced after its creation does
+    { cases += 1;
+      let parent = TxSpec::new(vec![TxIn::new([0x61; 32], 0, vec![0x51])], vec![TxOut::new(40, p2pkh_script(&[0xC1; 20])), TxOut::new(41, p2pkh_script(&[0xC2; 20])), TxOut::new(42, p2pkh_script(&[0xC3; 20]))]);
+      let pid = parent.txid();
+      let early = TxSpec::new(vec![TxIn::new(pid, 0, vec![0x51])], vec![TxOut::new(39, p2pkh_script(&[0xC4; 20]))]);
+      let late = TxSpec::new(vec![TxIn::new(pid, 2, vec![0x51])], vec![TxOut::new(38, p2pkh_script(&[0xC5; 20]))]);
+      let mut chain = make_chain(3, &mut |h| if h == 1 { vec![early.clone(), parent.clone(), late.clone()] } else { vec![] });
+      relink(&mut chain);
+      let d = simple_dir(&chain); d.write();
+      let out = tempfile::tempdir().unwrap();
+      let m = UnspentCsvDump::build_subcommand().get_matches_from(vec!["unspentcsvdump", out.path().to_str().unwrap()]);
+      let cb = UnspentCsvDump::new(&m).unwrap();
+      let inp = "one block: `early` (input names parent:0), then `parent` (3 outputs), then `late` (spends parent:2)";
+      match drive_with(d.path(), "bitcoin", 0, None, false, Box::new(cb)) {
+          Err(x) => fail(suite, "C07:run_completes", inp, &x, "Ok"),
+          Ok(()) => {
+              let mut got: Vec<String> = csv_lines(&out.path().join("unspent-0-2.csv")).into_iter().skip(1).collect(); got.sort();
+              let mut want: Vec<String> = ref_utxo(&chain, 0, 2).iter().map(|((t, i), (h, v, a))| format!("{};{};{};{};{}", t, i, h, v, a)).collect(); want.sort();
+              let p0 = format!("{};0;1;40;", hex_rev(&pid));
+              check(want.iter().any(|w| w.starts_with(&p0)), suite, "C07:reference_self_check", inp, "reference drops parent:0", "reference keeps parent:0");
+              check(got == want, suite, "C07:every_unspent_address_bearing_output_is_listed", inp, &format!("{:?}", got), &format!("{:?}", want));
           }
       } }
     finish(suite, cases);
